@@ -1985,9 +1985,7 @@ class MultiValuedValue(Value):
     def substitute_typevars(self, typevars: TypeVarMap) -> Value:
         if not self.vals or not typevars:
             return self
-        return MultiValuedValue(
-            [val.substitute_typevars(typevars) for val in self.vals]
-        )
+        return unite_values(*[val.substitute_typevars(typevars) for val in self.vals])
 
     def can_assign(self, other: Value, ctx: CanAssignContext) -> CanAssign:
         if isinstance(other, TypeVarValue):
